@@ -192,6 +192,8 @@ def mc_run(module, consts, invariants=('NoViolation',), props=(), view='View', w
     out = r['out']
     r['name'] = name
     r['consts'] = consts
+    if 'Parsing or semantic analysis failed' in out or 'Could not find or load' in out:
+        raise ToolError('TLC could not load %s: %s' % (module, out[-1500:]))
     r['violated'] = 'is violated' in out or 'Error:' in out
     if r['violated'] or not r['completed']:
         k = out.find('Error:')
